@@ -18,7 +18,7 @@ fn gen_stream(rng: &mut Rng, i: usize) -> (bool, Vec<u8>, Vec<usize>) {
     for j in 0..nmsg {
         let mut o = msg_opts_for(rng, i + j);
         o.storage = Some(sh);
-        if !rng.chance(1, 40) {
+        if !rng.chance(1, 25) {
             o.target_total = None;
             o.max_blob = 40;
             o.max_args = 4;
@@ -201,6 +201,28 @@ pub fn gen_readers(rng: &mut Rng, thorough: bool, op: u32, out: &mut Cases) {
                 let mut b2 = b.clone();
                 b2.extend_from_slice(&[0x20, 1, 0, 8, 1, 2, 3, 4]);
                 push_reader_case(out, op, sh, &None, 0, &sched, &b2);
+            }
+        }
+    }
+    // declared lengths at the top of the 16-bit range, complete and one byte short, both storage modes,
+    // default constructor and explicit capacities (the scratch buffer is exactly 16 + 65535 bytes)
+    for sh in [false, true] {
+        let storage = if sh { 16 } else { 0 };
+        for l in [65535usize, 65534, 65520, 65519, 65536 - 17] {
+            let mut b = vec![0u8; storage + l];
+            if sh {
+                b[..4].copy_from_slice(b"DLT\x01");
+            }
+            b[storage] = 0x20; // version 1, no optional fields, no extended header: non-verbose
+            b[storage + 2] = (l >> 8) as u8;
+            b[storage + 3] = l as u8;
+            let mut tail = b.clone();
+            tail.extend_from_slice(&b[..storage]);
+            tail.extend_from_slice(&[0x20, 1, 0, 8, 1, 2, 3, 4]);
+            for cap in [0u128, 65551, 70000] {
+                push_reader_case(out, op, sh, &None, cap, &[], &tail);
+                push_reader_case(out, op, sh, &None, cap, &[4096, 0, 70000], &b);
+                push_reader_case(out, op, sh, &None, cap, &[], &b[..b.len() - 1]);
             }
         }
     }
